@@ -105,11 +105,17 @@ def make_hoomd(recipe):
     typeid = rng.integers(0, K, size=N).astype(np.uint32)
     step = int(rng.integers(0, 1000))
     for _t in range(T):
-        pos = ((rng.random((N, 3)) - 0.5) * L).astype(np.float32)
+        n_t = N
+        if recipe.get("nvary") and _t > 0:
+            n_t = int(rng.integers(1, N + 1))           # particle number changing between frames (GSD only)
+        pos = ((rng.random((n_t, 3)) - 0.5) * L).astype(np.float32)
         if ndim == 2:
             pos[:, 2] = 0.0
-        box = np.array([L[0], L[1], L[2], 0, 0, 0], dtype=np.float32)
-        frames.append(FakeFrame(step, ndim, box, typeid.copy(), pos))
+        Lt = L * (1.0 + (rng.uniform(-0.05, 0.05) if recipe.get("boxvary") and _t > 0 else 0.0))
+        box = np.array([Lt[0], Lt[1], Lt[2], 0, 0, 0], dtype=np.float32)
+        # real GSD files store unchanged arrays once: frames may hand out the very same object
+        tid = typeid if (recipe.get("share_typeid") and n_t == N) else typeid[:n_t].copy()
+        frames.append(FakeFrame(step, ndim, box, tid, pos))
         step += int(rng.integers(1, 5000))
     xyz = (rng.normal(0, 20.0, size=(T, N, 3))).astype(np.float32)
     if ndim == 2:
@@ -340,9 +346,12 @@ class World(WorldBase):
         return {"op": "read_center", "path": p, "moltypes": mol, "via": rng.choice(["DumpReader", "wrapper"])}
 
     def gen_hoomd(self, rng):
-        return {"op": "hoomd", "dcd": rng.random() < 0.5,
+        dcd = rng.random() < 0.5
+        return {"op": "hoomd", "dcd": dcd,
                 "recipe": {"ndim": rng.choice([2, 3]), "N": rng.randint(1, 10), "T": rng.randint(1, 5),
-                           "K": rng.randint(1, 4), "subseed": rng.randrange(1 << 40)}}
+                           "K": rng.randint(1, 4), "nvary": (not dcd) and rng.random() < 0.3,
+                           "share_typeid": rng.random() < 0.4, "boxvary": rng.random() < 0.3,
+                           "subseed": rng.randrange(1 << 40)}}
 
     def gen_write_log(self, rng):
         return {"op": "write_log", "path": rng.choice(LOGS),
@@ -626,6 +635,7 @@ class World(WorldBase):
         from PyMatterSim.reader.gsd_reader_helper import read_gsd, read_gsd_dcd
         r = op["recipe"]
         frames, xyz, lengths = make_hoomd(r)
+        pristine, _x, _l = make_hoomd(r)        # what the peer holds, untouched by the converters
         ndim = r["ndim"]
         traj = FakeTrajectory(frames)
         if op["dcd"]:
@@ -640,7 +650,7 @@ class World(WorldBase):
             raise Violation(f"C19/{tag}-raised:hoomd", f"{exc[0]}: {exc[1]}")
         if res is None or res.nsnapshots != len(frames) or len(res.snapshots) != len(frames):
             raise Violation(f"C19/{tag}-frames:hoomd", f"{getattr(res, 'nsnapshots', None)} vs {len(frames)}")
-        for t, (s, fr) in enumerate(zip(res.snapshots, frames)):
+        for t, (s, fr) in enumerate(zip(res.snapshots, pristine)):
             if s.timestep != fr.configuration.step or s.nparticle != fr.particles.N:
                 raise Violation(f"C19/{tag}-frame-meta:hoomd", f"frame {t}: step {s.timestep}/{fr.configuration.step} n {s.nparticle}")
             if not np.array_equal(np.asarray(s.particle_type, dtype=float), fr.particles.typeid.astype(float) + 1):
